@@ -152,6 +152,10 @@ def check_instance(rec, ctx, e, key, shape, rng):
                     env = exprs.random_env(lhs + 0 if False else sp.Tuple(lhs, rhs), rng)
                     ok = exprs.same(exprs.numeric(lhs, env), exprs.numeric(rhs, env))
                     rec.note("numeric_fallback")
+                    if not ok:
+                        ok = exprs.same_up_to_conditioning(lambda e_: exprs.numeric(lhs, e_), lambda e_: exprs.numeric(rhs, e_), env, rng)
+                        if ok:
+                            rec.note("numeric_fallback_ill_conditioned")
                 except Exception as exc:  # noqa: BLE001
                     law(lawname, mapkind, False, f"{api}({m}): sides differ structurally and numeric evaluation raised {type(exc).__name__}: {exc}",
                         {"map": str(m), "lhs": sp.srepr(lhs)[:300], "rhs": sp.srepr(rhs)[:300]})
